@@ -36,14 +36,20 @@ fn judge_source(src: &str, ctx: &mut Ctx, nontrivial: bool, pause: bool, case: &
     let tag = if cfg!(debug_assertions) { "dev" } else { "release" };
     let ast = match fmlrun::parse(src) {
         Ok(a) => a,
-        Err(_) => return refused_alike(src, ctx, "parse", case),
+        Err(e) => return refused_alike(src, ctx, "parse", &e, case),
     };
     // ---- in-process: the same AST compiled 5 times (every HashMap::new() draws a new RandomState)
     let mut images: Vec<Vec<u8>> = vec![];
     for _ in 0..5 {
-        match fmlrun::compile(&ast).and_then(|p| fmlrun::serialize(&p)) {
+        let compiled = match fmlrun::compile(&ast) {
+            Ok(p) => p,
+            Err(e) => return refused_alike(src, ctx, "compile", &e, case),
+        };
+        match fmlrun::serialize(&compiled) {
             Ok(b) => images.push(b),
-            Err(_) => return refused_alike(src, ctx, "compile", case),
+            // compiles (and runs) but has no image, e.g. a pool of 65536 constants whose count
+            // does not fit the format: `fml compile` must refuse it in every build
+            Err(e) => return unserializable_alike(src, &compiled, ctx, &e, case),
         }
     }
     if images.iter().any(|b| b != &images[0]) {
@@ -163,7 +169,7 @@ fn judge_source(src: &str, ctx: &mut Ctx, nontrivial: bool, pause: bool, case: &
 /// The engine (one build profile, in-process) refuses `src` before running it.  Being refused is
 /// fine; being refused by one build and accepted by another, or in one run and not the next, is
 /// not: both binaries must refuse it too, every time, without output and without a signal.
-fn refused_alike(src: &str, ctx: &mut Ctx, stage: &str, case: &dyn Fn() -> Value) -> Judged {
+fn refused_alike(src: &str, ctx: &mut Ctx, stage: &str, why: &str, case: &dyn Fn() -> Value) -> Judged {
     let tag = if cfg!(debug_assertions) { "dev" } else { "release" };
     let res: Result<(), Violation> = SCRATCH.with(|s| {
         let mut s = s.borrow_mut();
@@ -179,7 +185,7 @@ fn refused_alike(src: &str, ctx: &mut Ctx, stage: &str, case: &dyn Fn() -> Value
             if o.status.success() || matches!(o.status, cli::Status::Signal(_)) || !o.out_str().is_empty() {
                 return Err(Violation::new(
                     "refusal-differs",
-                    format!("the {} engine refuses the program at the {} stage, but `fml run` ({} binary) ends with status {:?} and stdout {:?}", tag, stage, btag, o.status, o.out_str().chars().take(200).collect::<String>()),
+                    format!("the {} engine refuses the program at the {} stage ({}), but `fml run` ({} binary) ends with status {:?} and stdout {:?}", tag, stage, why.chars().take(200).collect::<String>(), btag, o.status, o.out_str().chars().take(200).collect::<String>()),
                     case(),
                 )
                 .with("where", "processes")
@@ -192,6 +198,68 @@ fn refused_alike(src: &str, ctx: &mut Ctx, stage: &str, case: &dyn Fn() -> Value
         return ctx.settle(v);
     }
     ctx.label(&format!("refused-alike:{}", stage));
+    ctx.label(&format!("engine:{}", tag));
+    Ok(())
+}
+
+/// The program compiles but the serializer refuses it.  Then `fml compile` must refuse it in both
+/// builds (no file contents, no signal) and `fml run`, which needs no image, must behave alike
+/// in both builds and like the in-process run.
+fn unserializable_alike(src: &str, p: &crate::bytecode::program::Program, ctx: &mut Ctx, why: &str, case: &dyn Fn() -> Value) -> Judged {
+    let tag = if cfg!(debug_assertions) { "dev" } else { "release" };
+    let first = fmlrun::run_stepped(p, 3_000_000);
+    if matches!(first.exec, fmlrun::Exec::Runaway) {
+        ctx.exclude("does-not-terminate-within-fuel");
+        return Ok(());
+    }
+    let res: Result<(), Violation> = SCRATCH.with(|s| {
+        let mut s = s.borrow_mut();
+        if s.is_none() {
+            *s = Some(cli::Scratch::new("C11", tag));
+        }
+        let sc = s.as_mut().unwrap();
+        let fsrc = sc.file("unser.fml");
+        let fjson = sc.file("unser.json");
+        std::fs::write(&fsrc, src).unwrap();
+        let herr = |e: String| Violation::new("harness-error", e, json!({}));
+        let rel = cli::fml_release();
+        let dbg = cli::fml_debug();
+        let o = cli::run_fml(&rel, &["parse", fsrc.to_str().unwrap(), "-o", fjson.to_str().unwrap()]).map_err(|e| herr(e.to_string()))?;
+        if !o.status.success() {
+            return Err(herr(format!("fml parse failed: {}", o.err_str())));
+        }
+        for (bin, btag) in [(&rel, "release"), (&dbg, "debug")].iter() {
+            let fo = sc.file("unser.bc");
+            let _ = std::fs::remove_file(&fo);
+            let o = cli::run_fml(bin, &["compile", fjson.to_str().unwrap(), "-o", fo.to_str().unwrap()]).map_err(|e| herr(e.to_string()))?;
+            if o.status.success() || matches!(o.status, cli::Status::Signal(_)) {
+                return Err(Violation::new(
+                    "refusal-differs",
+                    format!("the {} engine cannot serialize the program ({}), but `fml compile` ({} binary) ends with status {:?} and a file of {} bytes", tag, why.chars().take(200).collect::<String>(), btag, o.status, std::fs::metadata(&fo).map(|m| m.len()).unwrap_or(0)),
+                    case(),
+                )
+                .with("where", "processes")
+                .with("stage", "serialize"));
+            }
+        }
+        for (bin, btag) in [(&rel, "release"), (&dbg, "debug")].iter() {
+            let o = cli::run_fml(bin, &["run", fsrc.to_str().unwrap()]).map_err(|e| herr(e.to_string()))?;
+            let same_status = o.status.success() == first.exec.is_ok() && !matches!(o.status, cli::Status::Signal(_));
+            if o.out_str() != first.out || !same_status {
+                return Err(Violation::new(
+                    "run-nondeterministic",
+                    format!("`fml run` ({} binary): status {:?} stdout {:?}\nin-process ({} engine): {:?} {:?}", btag, o.status, o.out_str().chars().take(200).collect::<String>(), tag, first.exec, first.out.chars().take(200).collect::<String>()),
+                    case(),
+                )
+                .with("where", "processes"));
+            }
+        }
+        Ok(())
+    });
+    if let Err(v) = res {
+        return ctx.settle(v);
+    }
+    ctx.label("unserializable-alike");
     ctx.label(&format!("engine:{}", tag));
     Ok(())
 }
